@@ -380,6 +380,49 @@ def exec_search(ctx):
                      "# circuit: " + "; ".join(descr), broken=["C01_corr_exec"])
 
 
+def unitary_history(ctx):
+    """`Circuit.unitary()` and execution of ONE circuit object, called again after parameter
+    updates in every accepted format: both must be the operator of the current gates."""
+    from qibo import Circuit, gates
+
+    nb = qgates.np_backend()
+    rng = ctx.rng
+    for _ in range(40 if ctx.thorough else 12):
+        n = rng.randint(1, 3)
+        cls = [rng.choice([gates.RX, gates.RY, gates.RZ, gates.U1, gates.GPI2]) for _ in range(rng.randint(1, 4))]
+        qs = [rng.randrange(n) for _ in cls]
+        c = Circuit(n)
+        for k, (G, q) in enumerate(zip(cls, qs)):
+            c.add(G(q, rng.uniform(-3, 3)))
+            if n >= 2 and k == 0:
+                c.add(gates.CNOT(*rng.sample(range(n), 2)))
+        ok, fmt = True, None
+        for fmt in ("none", "dict", "list", "flat", "dict"):
+            vals = [rng.uniform(-3, 3) for _ in cls]
+            pg = [g for g in c.queue if g.parameters]
+            if fmt == "dict":
+                c.set_parameters({g: v for g, v in zip(pg, vals)})
+            elif fmt == "list":
+                c.set_parameters([(v,) for v in vals])
+            elif fmt == "flat":
+                c.set_parameters(np.array(vals))
+            U = np.eye(2**n, dtype=complex)
+            for g in c.queue:
+                fresh = g.__class__(*g.init_args, **g.init_kwargs) if not g.parameters else g.__class__(*g.qubits, *g.parameters)
+                U = qgates.gate_full_matrix(fresh, n) @ U
+            psi = np.array([complex(rng.gauss(0, 1), rng.gauss(0, 1)) for _ in range(2**n)])
+            psi /= np.linalg.norm(psi)
+            out = np.asarray(nb.execute_circuit(c, initial_state=psi.copy()).state())
+            if not (np.allclose(np.asarray(c.unitary(nb)), U, atol=1e-9) and np.allclose(out, U @ psi, atol=1e-9)):
+                ok = False
+                break
+        ctx.case(("unitary-history", n, tuple(G.__name__ for G in cls), tuple(qs)))
+        if not ok:
+            ctx.fail(f"unitary-history:{fmt}", f"Circuit.unitary()/execution called again after a `{fmt}` parameter update is not the operator of the current gates ({[G.__name__ for G in cls]})",
+                     "from qibo import Circuit, gates; import numpy as np\nc = Circuit(1); c.add(gates.RX(0, 0.1)); c.unitary()\nc.set_parameters({c.queue[0]: 0.7})\nassert np.allclose(c.unitary(), gates.RX(0, 0.7).matrix())",
+                     broken=["C01_corr_exec"])
+
+
 def run(ctx):
     MODULES, THEOREMS = registry(PROP)
     ctx.theorems = THEOREMS
@@ -389,6 +432,7 @@ def run(ctx):
     table_search(ctx, traced)
     grbs_search(ctx)
     exec_search(ctx)
+    unitary_history(ctx)
     ctx.assumptions += [
         "qulacs backend not installed in this sandbox: only the numpy state-vector backend is exercised",
         "numpy einsum/transpose/reshape behave as modelled (differentially tested on Gaussian-integer data)",
